@@ -378,6 +378,9 @@ pub fn run(out: &mut Out, tier: &str, rng: &mut Rng) {
                 };
                 fields.push_str(&format!("    pub f{}: {},\n", q, t));
             }
+            // a cycle of length two (Link <-> Back), and an error type that nothing else mentions
+            fields.push_str(&format!("    pub back: Vec<Back{}>,\n    pub outcome: Result<{}, OnlyErr{}>,\n", i, pickn(rng), i));
+            t.push_str(&format!("#[derive(Serialize, Deserialize)]\npub struct OnlyErr{} {{ pub code: i32 }}\n", i));
             t.push_str(&format!("#[derive(Serialize, Deserialize)]\npub struct Link{} {{\n{}}}\n", i, fields));
             // close a cycle of length two through the first defined struct when it is one of ours
             t.push_str(&format!("#[derive(Serialize, Deserialize)]\npub struct Back{} {{ pub up: Vec<Link{}>, pub peer: Option<Box<Back{}>> }}\n", i, i, i));
